@@ -30,7 +30,7 @@ func namesLine(fi *FuncInfo) string {
 			g[2] = append(g[2], ent)
 		}
 	}
-	return "//@   names " + strings.Join(g[0], " ") + " | " + strings.Join(g[1], " ") + " | " + strings.Join(g[2], " ")
+	return "//@   names " + strings.Join(g[0], " ") + " | " + strings.Join(g[1], " ") + " | " + strings.Join(g[2], " ") + " | " + strings.Join(fi.LoopFP, " ")
 }
 
 // typeKey: a type as one token (package-qualified by name, spaces removed)
